@@ -16,7 +16,7 @@ ASSUMPTIONS = ["NOT, SETRF and CALL(label): the expansion is proved (C03_convert
 
 def run(ctx):
     r = pseudo.check(ctx["seed"], 60000 if ctx["thorough"] else 6000)
-    r["distinct_nontrivial"] = r["evaluations"]
+    r["distinct_nontrivial"] = r["distinct"]
     r["rule"] = ("(pseudo-op, operands, pre-state) with boundary-biased 16-bit immediates, all register choices incl. R0/Rt/PC_ret/FP/SP, "
                  "all 32 flag settings; every case executes a whole expansion")
     r["streams"] = {"pseudo": r["evaluations"]}
